@@ -471,9 +471,33 @@ _RAISES = (ValueError, TypeError, AttributeError, KeyError, IndexError,
            ZeroDivisionError)
 
 import re as _re
+import collections as _collections
+import functools as _functools
+import itertools as _itertools
+import operator as _operator2
+
+#: standard-library modules the interpreted code may use as they are
+STDLIB = {"numbers": numbers, "collections": _collections,
+          "itertools": _itertools, "functools": _functools, "re": _re,
+          "operator": _operator2}
 
 _ATTR_OK = (str, list, dict, tuple, set, NdArray, Namespace, NpBool, NpInt,
             NpFloat, bytes, _re.Pattern, _re.Match)
+
+
+def _is_generator(node):
+    stack = list(node.body)
+    while stack:
+        n = stack.pop()
+        if isinstance(n, (ast.Yield, ast.YieldFrom)):
+            return True
+        if isinstance(n, FUNC_LIKE):
+            continue
+        stack.extend(ast.iter_child_nodes(n))
+    return False
+
+
+FUNC_LIKE = (ast.FunctionDef, ast.AsyncFunctionDef, ast.Lambda, ast.ClassDef)
 
 
 class Func:
@@ -505,6 +529,7 @@ class Interp:
     def __init__(self):
         self.steps = 0
         self.raise_sites = []
+        self._yields = []
 
     # -- calling -----------------------------------------------------
     def call(self, fn, args, kwargs):
@@ -543,6 +568,18 @@ class Interp:
         env = (loc, fn.globs, fn.closure)
         if isinstance(node, ast.Lambda):
             return self.ev(node.body, *env)
+        if _is_generator(node):
+            # generator function: the yielded values are collected eagerly
+            # (laziness is not modelled)
+            self._yields.append([])
+            try:
+                try:
+                    self.block(node.body, *env)
+                except _Return:
+                    pass
+                return list(self._yields[-1])
+            finally:
+                self._yields.pop()
         try:
             self.block(node.body, *env)
         except _Return as r:
@@ -879,6 +916,17 @@ class Interp:
             if isinstance(e, ast.SetComp):
                 return set(out)
             return out
+        if isinstance(e, ast.Yield):
+            if not self._yields:
+                raise AnalysisError("model: yield outside a generator")
+            self._yields[-1].append(
+                None if e.value is None else self.ev(e.value, *env))
+            return None
+        if isinstance(e, ast.YieldFrom):
+            if not self._yields:
+                raise AnalysisError("model: yield outside a generator")
+            self._yields[-1].extend(self._try(list, self.ev(e.value, *env)))
+            return None
         if isinstance(e, ast.NamedExpr):
             v = self.ev(e.value, *env)
             self.assign(e.target, v, *env)
@@ -914,7 +962,8 @@ class Interp:
             return hook(attr)
         if isinstance(obj, Namespace) and attr in obj.__dict__:
             return obj.__dict__[attr]
-        if isinstance(obj, _ATTR_OK) or obj is numbers \
+        if isinstance(obj, _ATTR_OK) or any(
+                obj is m for m in STDLIB.values()) \
                 or isinstance(obj, type) \
                 or getattr(type(obj), "model_object", False):
             if attr.startswith("_") and not isinstance(obj, Namespace):
@@ -972,6 +1021,34 @@ class ModuleInterp(Interp):
 # ----------------------------------------------------------------------
 # interpreted classes
 
+def class_methods(node):
+    """{name: FunctionDef} of a class including the methods it inherits from
+    base classes defined in the same file (left-to-right, depth first; the
+    class's own definitions win)"""
+    mod = node
+    while getattr(mod, "parent", None) is not None:
+        mod = mod.parent
+    classes = {}
+    for st in ast.walk(mod):
+        if isinstance(st, ast.ClassDef):
+            classes.setdefault(st.name, st)
+    out = {}
+    seen = set()
+
+    def rec(c):
+        if c.name in seen:
+            return
+        seen.add(c.name)
+        for f in c.body:
+            if isinstance(f, ast.FunctionDef):
+                out.setdefault(f.name, f)
+        for b in c.bases:
+            if isinstance(b, ast.Name) and b.id in classes:
+                rec(classes[b.id])
+    rec(node)
+    return out
+
+
 def _method_kind(fn):
     kinds = {txt(d).split(".")[-1] for d in fn.decorator_list}
     for k in ("staticmethod", "classmethod", "property"):
@@ -995,8 +1072,7 @@ class ClassModel(Namespace):
         self._globs = globs
         self._interp = interp
         self._ctor = ctor
-        self._methods = {f.name: f for f in node.body
-                         if isinstance(f, ast.FunctionDef)}
+        self._methods = class_methods(node)
 
     def _resolve(self, attr, inst=None):
         fn = self._methods.get(attr)
@@ -1212,3 +1288,195 @@ class ModelNullContext:
 
 CONTEXTLIB = Namespace("contextlib", ExitStack=ModelExitStack,
                        nullcontext=ModelNullContext)
+
+
+# ----------------------------------------------------------------------
+# module environments: names of the analysed file and of repository modules
+# it imports are resolved by definition
+
+class ModuleEnv(dict):
+    """globals of one analysed file.  Lookup order: names set explicitly
+    (stand-ins of the rule, assignments), the stand-ins shared by all files
+    of the environment, module-level definitions of the file (functions,
+    classes, simple assignments – evaluated lazily), names the file imports
+    from other repository modules (resolved in *their* ModuleEnv) or from
+    the standard-library modules of STDLIB.  Anything else is unknown
+    (AnalysisError in the interpreter)."""
+
+    def __init__(self, envs, rel):
+        super().__init__()
+        self.envs = envs
+        self.rel = rel
+        self.tree = envs.repo.tree(rel)
+        self._defs = {}
+        self._imports = {}
+        self._busy = set()
+        self._explicit = {}
+        for st in self.tree.body:
+            self._scan(st)
+
+    def _scan(self, st):
+        if isinstance(st, (ast.FunctionDef, ast.ClassDef)):
+            self._defs[st.name] = st
+        elif isinstance(st, ast.Assign) and len(st.targets) == 1 \
+                and isinstance(st.targets[0], ast.Name):
+            self._defs[st.targets[0].id] = st
+        elif isinstance(st, ast.ImportFrom):
+            for al in st.names:
+                self._imports[al.asname or al.name] = (
+                    st.module, st.level, al.name)
+        elif isinstance(st, ast.Import):
+            for al in st.names:
+                if al.asname:
+                    self._imports[al.asname] = (al.name, 0, None)
+                else:
+                    top = al.name.split(".")[0]
+                    self._imports[top] = (top, 0, None)
+        elif isinstance(st, (ast.If, ast.Try)):
+            for sub in st.body:
+                self._scan(sub)
+
+    def __contains__(self, name):
+        if dict.__contains__(self, name) or name in self.envs.shared:
+            return True
+        return name in self._defs or self._importable(name)
+
+    def _importable(self, name):
+        if name not in self._imports:
+            return False
+        mod, level, attr = self._imports[name]
+        if level == 0:
+            return mod in STDLIB or mod.split(".")[0] in STDLIB
+        return self.envs.resolve(self.rel, mod, level, attr) is not None
+
+    def __getitem__(self, name):
+        if dict.__contains__(self, name):
+            return dict.__getitem__(self, name)
+        if name in self.envs.shared:
+            return self.envs.shared[name]
+        if name in self._defs:
+            if name in self._busy:
+                raise AnalysisError(f"model: cyclic definition of {name}")
+            self._busy.add(name)
+            try:
+                st = self._defs[name]
+                interp = self.envs.interp
+                if isinstance(st, ast.FunctionDef):
+                    val = Func(st, self, interp)
+                    for d in reversed(st.decorator_list):
+                        val = interp._try(interp.ev(d, None, self, None),
+                                          val)
+                elif isinstance(st, ast.ClassDef):
+                    val = ClassModel(st, self, interp)
+                else:
+                    val = interp.ev(st.value, None, self, None)
+            finally:
+                self._busy.discard(name)
+            dict.__setitem__(self, name, val)
+            return val
+        if name in self._imports:
+            mod, level, attr = self._imports[name]
+            if level == 0:
+                top = mod.split(".")[0]
+                if top in STDLIB:
+                    val = STDLIB[top]
+                    for part in mod.split(".")[1:]:
+                        val = getattr(val, part)
+                    if attr is not None:
+                        val = getattr(val, attr)
+                    dict.__setitem__(self, name, val)
+                    return val
+            else:
+                tgt = self.envs.resolve(self.rel, mod, level, attr)
+                if tgt is not None:
+                    rel2, attr2 = tgt
+                    env2 = self.envs.env(rel2)
+                    val = env2[attr2] if attr2 is not None else \
+                        Namespace(rel2, model_getattr=env2.__getitem__)
+                    dict.__setitem__(self, name, val)
+                    return val
+        raise KeyError(name)
+
+    def get(self, name, default=None):
+        try:
+            return self[name]
+        except (KeyError, AnalysisError):
+            return default
+
+    def setdefault(self, name, value):
+        if name not in self:
+            dict.__setitem__(self, name, value)
+        return self[name]
+
+    def copy_with(self, **overrides):
+        """a separate environment of the same file: the explicit entries of
+        this one plus `overrides` (functions created from it see them)"""
+        new = ModuleEnv(self.envs, self.rel)
+        for k in dict.keys(self):
+            v = dict.__getitem__(self, k)
+            # cached module-level definitions are re-created on demand so
+            # that they are bound to the new environment
+            if k in self._defs and not self._explicit.get(k):
+                continue
+            dict.__setitem__(new, k, v)
+            new._explicit[k] = True
+        for k, v in overrides.items():
+            new.set(k, v)
+        return new
+
+    def set(self, name, value):
+        dict.__setitem__(self, name, value)
+        self._explicit[name] = True
+
+    def __setitem__(self, name, value):
+        self.set(name, value)
+
+    def update(self, *a, **k):
+        for m in list(a) + [k]:
+            for kk in m:
+                self.set(kk, m[kk])
+
+
+class ModuleEnvs:
+    def __init__(self, repo, interp, shared=None):
+        self.repo = repo
+        self.interp = interp
+        self.shared = dict(shared or {})
+        self._envs = {}
+
+    def env(self, rel, **overrides):
+        if rel not in self._envs:
+            self._envs[rel] = ModuleEnv(self, rel)
+        e = self._envs[rel]
+        for k, v in overrides.items():
+            e.set(k, v)
+        return e
+
+    def fresh(self, rel, **overrides):
+        """an environment of `rel` that is not shared with other users"""
+        e = ModuleEnv(self, rel)
+        for k, v in overrides.items():
+            e.set(k, v)
+        return e
+
+    def resolve(self, rel, mod, level, attr):
+        """(file, name) a relative import refers to, or None"""
+        parts = rel.split("/")[:-1]
+        if level > 1:
+            parts = parts[:len(parts) - (level - 1)]
+        base = "/".join(parts)
+        cands = []
+        if mod:
+            path = base + "/" + mod.replace(".", "/")
+            cands.append((path + ".py", attr))
+            cands.append((path + "/__init__.py", attr))
+            if attr is not None:
+                cands.insert(0, (path + "/" + attr + ".py", None))
+        elif attr is not None:
+            cands.append((base + "/" + attr + ".py", None))
+            cands.append((base + "/" + attr + "/__init__.py", None))
+            cands.append((base + "/__init__.py", attr))
+        for r, a in cands:
+            if self.repo.exists(r):
+                return r, a
+        return None
